@@ -6,7 +6,7 @@
        one member, one constructor parameter and one initialiser per field, in declaration order. *)
 From Coq Require Import List String Ascii ZArith Bool Arith.
 From PDV Require Import Lib.StrUtil Marshal.Ident Marshal.IdentProofs Marshal.TypeStr Marshal.TypeStrProofs
-                        Jinja.Tir Jinja.Interp Gen.Templates Jinja.FragFlags Jinja.FragEnums Jinja.FragRecord Jinja.FragDecl Jinja.FragIface.
+                        Jinja.Tir Jinja.Interp Gen.Templates Jinja.FragFlags Jinja.FragEnums Jinja.FragRecord Jinja.FragDecl Jinja.FragIface Jinja.Inline Jinja.FragIfaceJava.
 Import ListNotations.
 Open Scope string_scope. Open Scope list_scope.
 
@@ -101,6 +101,21 @@ Print Assumptions C02_interface_decl_cpp.
 Theorem C02_interface_loop_is_the_template : Slice.nth_for "methods" 0 t_cpp_header_interface_jinja2_hpp = Some iface_loop.
 Proof. vm_compute. reflexivity. Qed.
 Print Assumptions C02_interface_loop_is_the_template.
+
+(* Java: one abstract-class method declaration per IDL method (macro `parameters` of the base template expanded), with static / abstract,
+   return type, parameter list, throws clause and the CppProxy forwarder of static methods, for every method list *)
+Theorem C02_interface_decl_java : forall ml,
+  execs java_cfg jiface_loop_l (jistate ml) = (jistate ml, concat "" (map jmethod_decl ml)).
+Proof. exact java_iface_methods_render. Qed.
+Print Assumptions C02_interface_decl_java.
+
+Theorem C02_java_interface_loop_is_the_template :
+  match Slice.nth_for "methods" 0 t_java_interface_jinja2_java with
+  | Some f => inline 4 (macros_of t_java_base_jinja2 ++ macros_of t_java_interface_jinja2_java) [f]
+  | None => []
+  end = jiface_loop_l.
+Proof. vm_compute. reflexivity. Qed.
+Print Assumptions C02_java_interface_loop_is_the_template.
 
 Theorem C02_members_in_declaration_order : forall h l idx k f, nth_error l k = Some f ->
   exists pre post, lines h l idx = (pre ++ h f (idx + k) (match skipn (S k) l with [] => true | _ => false end) ++ post)%string.
